@@ -22,12 +22,40 @@ SPEC = [
     (WD, "MAXIMUM_DIR_MODE", "MAXIMUM_DIR_MODE"),
 ]
 
+def function_body(src, header_regex):
+    """text of the function whose definition line matches header_regex (up to the closing brace in column 0)"""
+    import re
+    m = re.search(header_regex, src, flags=re.M)
+    if not m:
+        raise KeyError("function %s not found" % header_regex)
+    end = src.find("\n}\n", m.end())
+    return src[m.end():end]
+
+def shape_flags():
+    """two structural facts about the code that the model follows (so that the model stays faithful
+    across the proposed fixes):
+      CLOSE_CHECKS_FIXUP_PATH            _archive_write_disk_close walks the fix-up name with
+                                         check_symlinks_fsobj before opening it
+      HARDLINK_DATA_NONREG_CLEARS_TODO   create_filesystem_object clears a->todo when a hard-link entry
+                                         with data was linked to something that is not a regular file"""
+    import re
+    src = cdefs.strip_comments(cdefs.read(WD))
+    close_body = function_body(src, r"^_archive_write_disk_close\(struct archive \*_a\)\s*$")
+    cfo_body = function_body(src, r"^create_filesystem_object\(struct archive_write_disk \*a\)\s*$")
+    hl = cfo_body.split("archive_entry_symlink(a->entry)")[0]
+    f1 = "check_symlinks_fsobj(" in close_body
+    f2 = re.search(r"AE_IFREG\)\s*\{.*?\}\s*else\s*\{[^}]*a->todo\s*=\s*0", hl, flags=re.S) is not None
+    return f1, f2
+
 def generate():
     lines = [cdefs.coq_header("translators/gen_fsSec.py", sorted(set(s[0] for s in SPEC))),
              "From Coq Require Import NArith.\n"]
     for rel, cname, coqname in SPEC:
         v = cdefs.define_value(rel, cname, {}) & 0xFFFFFFFF
         lines.append("Definition %s : N := (%d)%%N." % (coqname, v))
+    f1, f2 = shape_flags()
+    lines.append("Definition CLOSE_CHECKS_FIXUP_PATH : bool := %s." % ("true" if f1 else "false"))
+    lines.append("Definition HARDLINK_DATA_NONREG_CLEARS_TODO : bool := %s." % ("true" if f2 else "false"))
     return "\n".join(lines) + "\n"
 
 def main():
